@@ -9,7 +9,7 @@ numeric type, byte order, dimensions, subarray count and listed subarray
 dimensions of the model, contain every current readcode() snippet, and mention
 metadata.json exactly when metadata exist.
 """
-import itertools
+import itertools, os
 from hypothesis import strategies as st
 from vlib.runner import Outcome, hyp_search, enum_search, shard_seed, NSHARDS
 from vlib import hist, rhist
@@ -25,11 +25,77 @@ ASSUMPTIONS = ["darr.array.readcodetxt / darr.raggedarray.readcodetxt applied to
                "exactly a difference between a live handle's cached state and a fresh one); field extraction guards against both being wrong",
                "mutators are issued in mode r+ only"]
 EXHAUSTIVE = None
-MUST_HIT = ['ragged-len-5', 'ragged-len-6', 'ragged-len-7', 'meta-created', 'meta-deleted', 'overwrite-recreate', 'growth:append',
+MUST_HIT = ['readme-write-refused-by-the-file-system', 'ragged-len-5', 'ragged-len-6', 'ragged-len-7', 'meta-created', 'meta-deleted', 'overwrite-recreate', 'growth:append',
             'growth:iterappend', 'growth:generated', 'env:c-locale', 'overwrite-refused', 'metadata-changed-through-its-own-accessmode', 'failed-append-in-history', 'array-history', 'ragged-history', 'copy', 'ops-inside-open-context']
 
 
+def _exec_readmefault(ctx, spec):
+    """An operation during which README.txt cannot be written (file-size limit of 1 KiB: data and descriptions fit, the README
+    does not).  The operation may fail; if it returns normally it has completed, and then the README is current."""
+    import darr
+    import numpy as np
+    from vlib import faults
+    from vlib.runner import Outcome, HarnessError
+    out = Outcome()
+    kind, what = spec['kind'], spec['op']
+    out.cls('readme-write-refused-by-the-file-system', f'readme-fault:{kind}:{what}')
+    with ctx.scratch() as d:
+        path = os.path.join(d, 'a.darr')
+        if kind == 'array':
+            m = np.arange(6, dtype='<i4').reshape(3, 2)
+            a = darr.asarray(path, m, accessmode='r+', metadata={'k': 1} if what == 'meta-del' else None)
+        else:
+            a = darr.asraggedarray(path, [[1, 2], [3], [4, 5, 6]], dtype='int16', accessmode='r+', metadata={'k': 1} if what == 'meta-del' else None)
+        box = {}
+
+        def op():
+            if what == 'append':
+                a.append([[7, 8]] if kind == 'array' else [7, 8])
+            elif what == 'iterappend':
+                a.iterappend([[[7, 8]], [[9, 10]]] if kind == 'array' else [[7], [8, 9]])
+            elif what == 'trunc':
+                (darr.truncate_array if kind == 'array' else darr.truncate_raggedarray)(a, 1)
+            elif what == 'meta-set':
+                a.metadata['first'] = 1
+            else:
+                a.metadata.pop('k')
+
+        def inspect(raised):
+            if raised:
+                return {'raised': raised, 'v': []}
+            o = Outcome()
+            if kind == 'array':
+                fresh = darr.Array(path)
+                hist.check_array_readme(o, path, fresh[:], bool(fresh.metadata), f'readme-fault:{what}')
+            else:
+                try:
+                    from darr.raggedarray import readcodetxt
+                except ImportError:      # renamed in a refactoring: nothing to compare with
+                    return {'raised': None, 'v': []}
+                with open(os.path.join(path, 'README.txt'), encoding='utf-8') as f:
+                    txt = f.read()
+                want = readcodetxt(darr.RaggedArray(path))
+                if txt != want:
+                    o.viol('readme-stale', f'ragged:readme-fault:{what}', 'the operation returned normally although README.txt could not be written; it is not current')
+            return {'raised': None, 'v': o.violations}
+        res, err = faults.run_with_fsize_limit(1024, op, inspect)
+        if err is not None:
+            raise HarnessError(err)
+        if res['raised']:
+            out.cls('readme-fault:operation-raised')
+        out.violations.extend(res['v'])
+    return out
+
+
+def readmefault_specs():
+    for kind in ('array', 'ragged'):
+        for what in ('append', 'iterappend', 'trunc', 'meta-set', 'meta-del'):
+            yield {'f': 'readme-fault', 'kind': kind, 'op': what}
+
+
 def execute(ctx, spec):
+    if spec.get('f') == 'readme-fault':
+        return _exec_readmefault(ctx, spec)
     if spec.get('env'):          # a case recorded from a child interpreter under another environment (replay path)
         from vlib import envrun
         return envrun.execute_in_env(ctx, 'checks.c08', spec)
@@ -99,6 +165,10 @@ def growth_specs():
            'ops': [{'o': 'append', 'item': {'n': i % 3, 'seed': i, 'form': 'nd'}} for i in range(8)]}
 
 
+def task_readmefault(ctx, col):
+    enum_search(ctx, col, readmefault_specs(), lambda s: execute(ctx, s))
+
+
 def task_growth(ctx, col):
     enum_search(ctx, col, growth_specs(), lambda s: execute(ctx, s))
     # a sample of the histories in a child interpreter whose default text encoding is ASCII: the README (which holds non-ASCII
@@ -128,7 +198,7 @@ def tasks(ctx):
     global EXHAUSTIVE
     L = ctx.pick(2, 3)
     EXHAUSTIVE = f"all op sequences of length <= {L} over C03's and C04's alphabets; the fixed ragged growth histories through 3..9 subarrays"
-    t = [(task_growth, {})]
+    t = [(task_growth, {}), (task_readmefault, {})]
     for sh in range(NSHARDS):
         t.append((task_enum, dict(shard=sh, L=L)))
         t.append((task_random, dict(shard=sh, n=ctx.pick(120, 2000))))
